@@ -111,14 +111,48 @@ func solveOne(o *Obligation, dir string, idx int, secs int) {
 	if secs < quick {
 		quick = secs
 	}
-	st, out, d := runSolver(context.Background(), solvers[0], file, quick, false)
-	o.Secs += d
-	if st == "unsat" || st == "sat" {
-		o.Status, o.Solver, o.Output = st, solvers[0].name, out
-		if st == "sat" {
-			o.Model = getModel(file, text)
+	// stage 1: z3 5.1 and cvc5 side by side with a small budget (each decides most
+	// obligations in well under a second; which one does differs by obligation)
+	st := ""
+	{
+		ctx1, cancel1 := context.WithCancel(context.Background())
+		type r1 struct {
+			st, out, name string
+			d             float64
 		}
-		return
+		ch1 := make(chan r1, 2)
+		for k, sp := range solvers[:2] {
+			sp, k := sp, k
+			go func() {
+				if k == 1 {
+					// cvc5 joins only when z3 has not answered within a second
+					select {
+					case <-ctx1.Done():
+						ch1 <- r1{"cancelled", "", sp.name, 0}
+						return
+					case <-time.After(time.Second):
+					}
+				}
+				s, o2, d2 := runSolver(ctx1, sp, file, quick, false)
+				ch1 <- r1{s, o2, sp.name, d2}
+			}()
+		}
+		for i := 0; i < 2; i++ {
+			r := <-ch1
+			o.Secs += r.d
+			if r.st == "unsat" || (r.st == "sat" && r.name == solvers[0].name) {
+				cancel1()
+				o.Status, o.Solver, o.Output = r.st, r.name, r.out
+				if r.st == "sat" {
+					o.Model = getModel(file, text)
+				}
+				return
+			}
+			if r.name == solvers[0].name {
+				st = r.st
+			}
+		}
+		cancel1()
 	}
 	// proof by cases along the last control-flow join (the joined state is an if-then-else
 	// of the edge states; with the edge condition asserted the solver sees one of them)
@@ -132,7 +166,7 @@ func solveOne(o *Obligation, dir string, idx int, secs int) {
 				all = false
 				break
 			}
-			cst, _, cd := runSolver(context.Background(), solvers[0], cf, secs, false)
+			cst, _, cd := runSolver(context.Background(), solvers[0], cf, 2*quick, false)
 			os.Remove(cf)
 			o.Secs += cd
 			if cst != "unsat" {
